@@ -786,6 +786,17 @@ func runC08(c *Cfg) {
 		cases = append(cases, &BatchCase{Family: "limit-option-then-builder", N: n, C: 0, Budget: 1, Items: it, Shape: "results", Build: "option-then-builder", ExecStyle: "result", Gated: true, Policy: "first"})
 		cases = append(cases, &BatchCase{Family: "limit-option-then-builder", N: n, C: 2, Budget: 1, Items: it, Shape: "results", Build: "option-then-builder", ExecStyle: "result", Gated: true, Policy: "random", PSeed: uint64(n)})
 	}
+	// the limit the node's own prep chooses for this run (builder methods inside prep) is the limit of this run: hard
+	// and usable — whatever the node was built with
+	for _, pc := range [][2]int{{0, 3}, {4, 0}, {6, 2}, {1, 4}, {2, 1}, {0, 1}} { // {built with, prep sets}
+		for _, n := range []int{5, 9} {
+			it := make([]ItemScript, n)
+			for j := range it {
+				it[j].K = 1
+			}
+			cases = append(cases, &BatchCase{Family: "limit-chosen-in-prep", N: n, C: pc[1], Budget: 1, Items: it, Shape: "results", Build: []string{"builder", "options"}[n%2], ExecStyle: []string{"result", "any"}[pc[0]%2], Gated: true, Policy: []string{"last", "first", "random"}[(pc[0]+n)%3], PSeed: uint64(n + pc[0]), PrepSets: &PrepSets{BuiltC: pc[0]}})
+		}
+	}
 	// long sequential batches: strictly one at a time, in item order
 	for _, n := range []int{41, 64} {
 		it := make([]ItemScript, n)
